@@ -51,6 +51,7 @@ type engine struct {
 	Subst    string // R4 substitution file (relative to /verif)
 	Race     bool
 	Harness  []string // repo-relative dirs with harness files under /verif/harness
+	Skip     string   // harness files whose name contains this are left out (they need another engine's rewrites)
 	StubTest []string // repo-relative dirs whose own _test.go files are replaced by stubs
 }
 
@@ -149,6 +150,9 @@ func (b *build) buildEngine(e engine) (string, error) {
 	for _, h := range e.Harness {
 		files, _ := filepath.Glob(filepath.Join(verif, "harness", h, "*.go"))
 		for _, f := range files {
+			if e.Skip != "" && strings.Contains(filepath.Base(f), e.Skip) {
+				continue
+			}
 			overlay[filepath.Join(repo, h, filepath.Base(f))] = f
 		}
 	}
@@ -303,6 +307,7 @@ func main() {
 	scale := flag.Float64("scale", 1, "multiply run counts (development)")
 	printTrace := flag.Bool("print", false, "with -replay: print the event trace")
 	engineFilter := flag.String("engine", "", "with -selftest: only this engine")
+	recordKnown := flag.Bool("record-known", false, "with -property: search for runs that manifest the listed known findings of the property and store their replay files under known/")
 	trace := flag.Int64("trace", -1, "with -property: run the n-th run of the seed verbosely and print its event log")
 	flag.Parse()
 	if t := os.Getenv("VERIF_TIER"); t != "" && *tier == "quick" {
@@ -337,6 +342,8 @@ func main() {
 		code = doReplay(b, *replay, *printTrace)
 	case *selftest != "":
 		code = doSelftest(b, *selftest, seed, *workers, *engineFilter)
+	case *prop != "" && *recordKnown:
+		code = doRecordKnown(b, *prop, seed, *workers)
 	case *prop != "" && *trace >= 0:
 		code = doTrace(b, *prop, *tier, seed, *trace)
 	case *prop != "":
@@ -436,6 +443,154 @@ func doTrace(b *build, id, tier string, seed, n int64) int {
 	}
 	fatal(2, "no such property")
 	return 2
+}
+
+type knownFinding struct {
+	Property  string `json:"property"`
+	Signature string `json:"signature"`
+	Status    string `json:"status"`
+	What      string `json:"what"`
+	Replay    string `json:"replay,omitempty"`
+}
+
+func loadKnown() []knownFinding {
+	var kf struct {
+		Findings []knownFinding `json:"findings"`
+	}
+	b, err := os.ReadFile(filepath.Join(verif, "known_findings.json"))
+	if err != nil {
+		return nil
+	}
+	_ = json.Unmarshal(b, &kf)
+	return kf.Findings
+}
+
+func sigFile(prop, sig string) string {
+	r := strings.NewReplacer("/", "_", " ", "_")
+	return filepath.Join(verif, "known", prop+"-"+r.Replace(sig)+".json")
+}
+
+// replayKnown re-executes the stored replay file of every listed finding of the property and
+// prints a KNOWN-FINDING line for each one that still manifests.
+func replayKnown(b *build, id string) int {
+	n := 0
+	for _, f := range loadKnown() {
+		if f.Property != id {
+			continue
+		}
+		path := sigFile(id, f.Signature)
+		raw, err := os.ReadFile(path)
+		if err != nil {
+			// the same defect recorded through another property it affects
+			alt, _ := filepath.Glob(strings.Replace(path, string(filepath.Separator)+id+"-", string(filepath.Separator)+"C??-", 1))
+			if len(alt) == 0 {
+				continue
+			}
+			sort.Strings(alt)
+			path = alt[0]
+			if raw, err = os.ReadFile(path); err != nil {
+				continue
+			}
+		}
+		var rf struct {
+			Engine string `json:"engine"`
+		}
+		_ = json.Unmarshal(raw, &rf)
+		e, ok := engineByName(rf.Engine)
+		if !ok {
+			continue
+		}
+		bin, err := b.buildEngine(e)
+		if err != nil {
+			fatal(2, "build of engine %s failed: %v", e.Name, err)
+		}
+		env := map[string]string{"VERIF_MODE": "replay", "VERIF_REPLAY": path, "VERIF_OUT": filepath.Join(b.scratch, "known.json")}
+		if e.Race {
+			env["VERIF_TOLERATE_EXIT"] = "1"
+		}
+		r, out, err := runWorker(bin, e.TestName, env, 20*time.Minute)
+		if err != nil {
+			fmt.Fprintln(os.Stderr, out)
+			fatal(2, "replay of known finding %s failed: %v", path, err)
+		}
+		if r.Replayed != nil && r.Replayed.Signature == f.Signature {
+			n++
+			fmt.Printf("KNOWN-FINDING: property=%s %s: %s\n", id, f.Signature, oneLine(r.Replayed.Message, 300))
+		}
+	}
+	return n
+}
+
+func doRecordKnown(b *build, id string, seed int64, workers int) int {
+	var pd *propDef
+	for i := range props {
+		if props[i].ID == id {
+			pd = &props[i]
+		}
+	}
+	if pd == nil {
+		fatal(2, "no check for property %s", id)
+	}
+	want := map[string]bool{}
+	for _, f := range loadKnown() {
+		if f.Property == id {
+			want[f.Signature] = true
+		}
+	}
+	if len(want) == 0 {
+		fmt.Println("no listed finding for", id)
+		return 0
+	}
+	_ = os.MkdirAll(filepath.Join(verif, "known"), 0o755)
+	tmpReplays := filepath.Join(b.scratch, "known-replays")
+	got := map[string]bool{}
+	for round := 0; round < 6 && len(got) < len(want); round++ {
+		for bi, bt := range pd.Batches {
+			e, _ := engineByName(bt.Engine)
+			bin, err := b.buildEngine(e)
+			if err != nil {
+				fatal(2, "%v", err)
+			}
+			var wg sync.WaitGroup
+			reps := make([]*report, workers)
+			for wi := 0; wi < workers; wi++ {
+				wg.Add(1)
+				go func(wi int) {
+					defer wg.Done()
+					variant := bt.Variant
+					if variant != "" {
+						variant += ";"
+					}
+					env := map[string]string{"VERIF_MODE": "explore", "VERIF_SEED": strconv.FormatInt(seed+int64(round)*7919, 10), "VERIF_FIRST": strconv.Itoa(900_000 + bi*10_000 + wi), "VERIF_STRIDE": strconv.Itoa(workers),
+						"VERIF_COUNT": "4000", "VERIF_WALL": "60", "VERIF_PROPS": id, "VERIF_TIER": "quick", "VERIF_VARIANT": variant + "known=only", "VERIF_MAXFOUND": "12", "VERIF_SHRINK_S": "20",
+						"VERIF_OUT": filepath.Join(b.scratch, fmt.Sprintf("known-%d-%d-%d.json", round, bi, wi)), "VERIF_REPLAY_DIR": tmpReplays, "VERIF_KNOWN": "/nonexistent", "GOMAXPROCS": "2"}
+					reps[wi], _, _ = runWorker(bin, e.TestName, env, 15*time.Minute)
+				}(wi)
+			}
+			wg.Wait()
+			for _, r := range reps {
+				if r == nil {
+					continue
+				}
+				for _, f := range r.Found {
+					sig := f.Violation.Signature
+					if !want[sig] || got[sig] || f.Replay == "" {
+						continue
+					}
+					if err := copyFile(f.Replay, sigFile(id, sig)); err == nil {
+						got[sig] = true
+						fmt.Printf("recorded %s -> %s\n", sig, sigFile(id, sig))
+					}
+				}
+			}
+		}
+	}
+	for sig := range want {
+		if !got[sig] {
+			fmt.Printf("NOT FOUND within the budget: %s\n", sig)
+		}
+	}
+	return 0
 }
 
 type agg struct {
@@ -569,6 +724,7 @@ func doCheck(b *build, id, tier string, seed int64, workers int, scale float64) 
 		}
 		batchInfo = append(batchInfo, map[string]any{"engine": bt.Engine, "variant": bt.Variant, "runs": bruns, "wall_s": time.Since(bstart).Seconds(), "note": bt.Note})
 	}
+	knownReplayed := replayKnown(b, id)
 	// verify violations by replaying them in a fresh process
 	exit := 0
 	seenKnown := map[string]bool{}
@@ -577,10 +733,9 @@ func doCheck(b *build, id, tier string, seed int64, workers int, scale float64) 
 	seenClass := map[string]bool{}
 	for _, f := range a.found {
 		if f.Known {
-			if !seenKnown[f.Violation.Signature] {
-				seenKnown[f.Violation.Signature] = true
-				fmt.Printf("KNOWN-FINDING: property=%s %s: %s\n", f.Violation.Property, f.Violation.Signature, oneLine(f.Violation.Message, 300))
-			}
+			// (listed findings are announced by replaying their stored files; occurrences met during
+			// the exploration are only counted)
+			seenKnown[f.Violation.Signature] = true
 			continue
 		}
 		cls := f.Violation.Property + "/" + f.Violation.Invariant + "/" + f.Violation.Signature
@@ -667,6 +822,7 @@ func doCheck(b *build, id, tier string, seed int64, workers int, scale float64) 
 			"components":           pd.Components,
 			"rewrite_sites":        b.counts,
 			"known_findings_seen":  len(seenKnown),
+			"known_findings_replayed": knownReplayed,
 			"worker_cpu_s":         a.cpuS,
 		},
 	}
